@@ -20,4 +20,11 @@ def jobs(tier, seed):
                   witnesses=["end", "deadline already passed", "nothing pending"],
                   bound="ONE iteration of the ares_event_thread loop: hint absent or any value 0..4e6 s with microseconds "
                         "(the already-passed deadline {0,0} included), pending-write flag symbolic"))
+    for k, be in enumerate(("epoll", "poll", "select")):
+        J.append(dict(name="backend_wait_%s" % be, harness="backend_wait.c", defines=["-DBACKEND=%d" % k], backend="cadical",
+                      real=["src/lib/event/ares_event_%s.c" % be, "src/lib/ares_library_init.c"],
+                      support=["vp_rt.c", "valloc.c", "memloops.c"], unwind=18, kf_group="backend_wait",
+                      witnesses=["end", "forever", "bounded", "largest"],
+                      bound="ONE real ares_evsys_%s wait() with timeout_ms ARBITRARY in [0, 2^31] (0 = nothing pending, else remaining "
+                            "<= INT_MAX ms + 1), empty handle table, %s() a recording stub" % (be, {"epoll": "epoll_wait"}.get(be, be))))
     return J
